@@ -55,9 +55,18 @@ fn lib_crypt(key: &str, setting: &str) -> Option<String> {
         Some(out)
     }
 }
-/// `crypt(cred, hash) == hash`
+/// `crypt(cred, hash) == hash` (memoised: the hash pool of a run is small)
 fn lib_verify(cred: &str, hash: &str) -> bool {
-    !hash.is_empty() && lib_crypt(cred, hash).map(|h| h == hash).unwrap_or(false)
+    thread_local! {
+        static MEMO: RefCell<std::collections::HashMap<(String, String), bool>> = RefCell::new(Default::default());
+    }
+    let key = (cred.to_string(), hash.to_string());
+    if let Some(v) = MEMO.with_borrow(|m| m.get(&key).copied()) {
+        return v;
+    }
+    let v = !hash.is_empty() && lib_crypt(cred, hash).map(|h| h == hash).unwrap_or(false);
+    MEMO.with_borrow_mut(|m| m.insert(key, v));
+    v
 }
 
 // ---------------------------------------------------------------------------------------------
@@ -309,7 +318,7 @@ impl Ev {
                 "NssGroup" => ClientResponse::NssGroup(None),
                 "ProviderStatus" => ClientResponse::ProviderStatus(vec![]),
                 "Ok" => ClientResponse::Ok,
-                "Error" => ClientResponse::Error(sparkle_unix_common::unix_proto::OperationError::InvalidState),
+                "Error" => ClientResponse::Error(kanidm_proto::internal::OperationError::InvalidState),
                 o => panic!("unknown other {o}"),
             },
             Ev::Fail(_) => return None,
@@ -689,7 +698,27 @@ impl Ctx {
                 let handler = Handler::new(h);
                 let o = opts(*ufp, *iuu);
                 let t = OffsetDateTime::from_unix_timestamp(*now).unwrap();
-                let code = core::sm_authenticate_fallback(&handler, &o, t, etc_users, parsed.clone());
+                let res = std::panic::catch_unwind(std::panic::AssertUnwindSafe(|| {
+                    core::sm_authenticate_fallback(&handler, &o, t, etc_users, parsed.clone())
+                }));
+                let code = match res {
+                    Ok(c) => c,
+                    Err(p) => {
+                        // the module panicked: in the real cdylib this unwinds into `extern "C" pam_sm_authenticate`
+                        // and aborts the host process (sshd, login, sudo) - no result at all
+                        let msg = p.downcast_ref::<String>().cloned().or_else(|| p.downcast_ref::<&str>().map(|s| s.to_string())).unwrap_or_default();
+                        self.rep.count("stream:fb");
+                        self.rep.count("fb-code:panic");
+                        self.rep.case(None);
+                        let field = match &h.account {
+                            Ans::Val(n) => shadow.iter().find(|s| s.name == *n).map(|s| s.pw.clone()).unwrap_or_default(),
+                            _ => String::new(),
+                        };
+                        let class = if field.starts_with("$5$") { "C43:panic-on-malformed-sha256-hash" } else { "C43:panic-in-fallback" };
+                        self.fail("impl-vs-oracle", class, c, "a non-success PamResultCode (every error yields a non-success result)".into(), format!("panic: {msg}"));
+                        return;
+                    }
+                };
                 let got = show_out(&code, &[], &handler.calls.borrow(), 0);
                 // credentials that may be offered, hashes in play: what does the C library say?
                 let mut creds: Vec<u64> = vec![];
@@ -774,7 +803,9 @@ impl Ctx {
                         }
                     };
                     if let Err(why) = ok {
-                        let class = if why.contains("locked") {
+                        let class = if entry.as_ref().map(|e| trailing_digest_chars(&e.pw, &creds)).unwrap_or(false) {
+                            "C43:sha-crypt-trailing-digest-chars-accepted"
+                        } else if why.contains("locked") {
                             "C43:locked-or-empty-authenticated"
                         } else if why.contains("expired") {
                             "C43:expired-authenticated"
@@ -785,7 +816,13 @@ impl Ctx {
                     }
                 }
                 if model != got {
-                    self.fail("impl-vs-model", "unclassified", c, model.clone(), got.clone());
+                    // the model's `verify` is libcrypt's verdict: where the sha-crypt crate is more lenient the two differ
+                    let class = if code == PamResultCode::PAM_SUCCESS && entry.as_ref().map(|e| trailing_digest_chars(&e.pw, &creds)).unwrap_or(false) {
+                        "C43:sha-crypt-trailing-digest-chars-accepted"
+                    } else {
+                        "unclassified"
+                    };
+                    self.fail("impl-vs-model", class, c, model.clone(), got.clone());
                 }
                 if self.rep.evaluations % 977 == 2 {
                     self.rep.sample(json!({"request": line, "impl": got, "model": model}));
@@ -906,6 +943,25 @@ impl Ctx {
     }
 }
 
+/// A sha-crypt field with extra characters after a digest that (cut to its proper length)
+/// verifies one of the credentials: the verifier of the sha-crypt crate accepts it, crypt(3) does not.
+fn trailing_digest_chars(pw: &str, creds: &[u64]) -> bool {
+    let want = if pw.starts_with("$5$") {
+        43
+    } else if pw.starts_with("$6$") {
+        86
+    } else {
+        return false;
+    };
+    let Some(pos) = pw.rfind('$') else { return false };
+    let digest = &pw[pos + 1..];
+    if digest.len() <= want || !digest.is_char_boundary(want) {
+        return false;
+    }
+    let cut = format!("{}{}", &pw[..pos + 1], &digest[..want]);
+    creds.iter().any(|c| lib_verify(&cred_str(*c), &cut))
+}
+
 fn field_class(pw: &str) -> &'static str {
     if pw.is_empty() {
         "empty"
@@ -1004,13 +1060,18 @@ struct Hashes {
     good: Vec<(String, u64)>,
     unsupported: Vec<String>,
 }
-fn make_hashes() -> Hashes {
+fn make_hashes(thorough: bool) -> Hashes {
     let mut good = vec![];
     for cr in 1..=3u64 {
         let c = cred_str(cr);
-        for setting in ["$6$saltsalt", "$6$rounds=1000$abcdefgh", "$5$saltsalt", "$5$rounds=2000$qrstuvwx", "$y$j9T$F5Jx5fExrKuPp53xLKQ..1"] {
+        // yescrypt with small cost parameters (`j75`: ~20 ms here; the usual `j9T` takes ~2 s per hash in this
+        // sandbox and is only sampled once, in the thorough tier)
+        for setting in ["$6$saltsalt", "$6$rounds=1000$abcdefgh", "$5$saltsalt", "$5$rounds=2000$qrstuvwx", "$y$j75$F5Jx5fExrKuPp53xLKQ..1", "$y$j85$abcdefgh"] {
             let h = lib_crypt(&c, &format!("{setting}{cr}")).or_else(|| lib_crypt(&c, setting)).expect("libcrypt supports sha256/sha512/yescrypt");
             good.push((h, cr));
+        }
+        if thorough && cr == 1 {
+            good.push((lib_crypt(&c, "$y$j9T$F5Jx5fExrKuPp53xLKQ..1").expect("yescrypt j9T"), cr));
         }
     }
     let mut unsupported = vec![];
@@ -1058,13 +1119,13 @@ fn gen_fb(r: &mut Rng, hs: &Hashes) -> Case {
         if r.chance(1, 8) {
             continue;
         }
-        let expire_days = match r.below(10) {
-            0..=3 => None,
-            4 => Some(today),
-            5 => Some(today + 1),
-            6 => Some(today - 1),
-            7 => Some(0),
-            8 => Some(today + 1000),
+        let expire_days = match r.below(16) {
+            0..=6 => None,
+            7 | 8 => Some(today),
+            9 | 10 => Some(today + 1),
+            11 => Some(today - 1),
+            12 => Some(0),
+            13 | 14 => Some(today + 1000),
             _ => Some(-1),
         };
         shadow.push(ShadowLine { name: u, pw: gen_field(r, hs), expire_days });
@@ -1073,8 +1134,12 @@ fn gen_fb(r: &mut Rng, hs: &Hashes) -> Case {
             shadow.push(ShadowLine { name: u, pw: gen_field(r, hs), expire_days: None });
         }
     }
-    let mut h = gen_handler(r, r.below(3));
+    let np = r.below(3);
+    let mut h = gen_handler(r, np);
     h.service_info = None;
+    if !r.chance(1, 6) {
+        h.account = Ans::Val(r.range(1, nusers));
+    }
     // usually offer the credential matching one of the hashes, sometimes another
     Case::Fb { ufp: r.chance(1, 2), iuu: r.chance(1, 3), h, now, users, shadow }
 }
@@ -1092,6 +1157,8 @@ fn gen_pwfield(r: &mut Rng) -> String {
 }
 
 fn main() {
+    // panics of the code under test are caught and reported as failures; keep stderr readable
+    std::panic::set_hook(Box::new(|_| {}));
     let args = Args::parse();
     let dir = std::env::temp_dir().join(format!("verif-c43-{}", std::process::id()));
     std::fs::create_dir_all(&dir).unwrap();
@@ -1117,7 +1184,15 @@ fn main() {
         println!("c43 replay: {} cases, {} failures", ctx.rep.evaluations, ctx.rep.failures.len());
         return;
     }
-    let hs = make_hashes();
+    let t0 = std::time::Instant::now();
+    let mut lap = t0;
+    let mut timing: Vec<String> = vec![];
+    let mut mark = |name: &str, lap: &mut std::time::Instant| {
+        timing.push(format!("{name} {:.1}s", lap.elapsed().as_secs_f64()));
+        *lap = std::time::Instant::now();
+    };
+    let hs = make_hashes(args.thorough());
+    mark("hashes", &mut lap);
     // exhaustive: every single reply kind as the first reply, both option settings, stacked token or not
     let mut n_ex = 0;
     for ufp in [false, true] {
@@ -1154,21 +1229,28 @@ fn main() {
             n_ex += 1;
         }
         ctx.run(&Case::Acct { iuu: false, h: h.clone(), script: vec![] });
-        ctx.run(&Case::Acct { iuu: true, h: h.clone(), script: vec![Ev::Fail(2)] });
-        n_ex += 2;
+        n_ex += 1;
+        if args.thorough() {
+            ctx.run(&Case::Acct { iuu: true, h: h.clone(), script: vec![Ev::Fail(2)] });
+            ctx.run(&Case::Acct { iuu: true, h: h.clone(), script: vec![Ev::Fail(0)] });
+            n_ex += 2;
+        }
     }
+    mark("exhaustive", &mut lap);
     ctx.rep.exhaustive = true;
     ctx.rep.note(format!("exhaustive: every reply kind / undecodable frame as first reply x (Success | Denied | undecodable) next x use_first_pass x ignore_unknown_user, for sm_authenticate_connected and acct_mgmt; plus the daemon going quiet or away at the first / second call = {n_ex} cases"));
-    let nconn = args.cases(4_000, 80_000);
+    let nconn = args.cases(3_000, 60_000);
     for i in 0..nconn {
         let mut r = Rng::for_case(args.seed, i);
         let script = gen_script(&mut r, false);
-        let h = gen_handler(&mut r, r.below(8));
+        let np = r.below(8);
+        let h = gen_handler(&mut r, np);
         let route = if r.chance(1, 6) { 1 } else { 0 };
         ctx.run(&Case::Conn { ufp: r.chance(1, 2), iuu: r.chance(1, 3), h, script, route });
     }
+    mark("conn", &mut lap);
     // scripts in which the daemon goes quiet or away somewhere (1-2 s each)
-    for i in 0..args.cases(6, 60).min(240) {
+    for i in 0..args.cases(4, 60).min(240) {
         let mut r = Rng::for_case(args.seed ^ 0x71, i);
         let script = gen_script(&mut r, true);
         let mut h = gen_handler(&mut r, 8);
@@ -1183,7 +1265,8 @@ fn main() {
         script: vec![Ev::Step("MFAPollWait".into(), 3), Ev::Step("Success".into(), 3)],
         route: 0,
     });
-    let nacct = args.cases(400, 8_000);
+    mark("conn-slow", &mut lap);
+    let nacct = args.cases(250, 5_000);
     for i in 0..nacct {
         let mut r = Rng::for_case(args.seed ^ 0xacc7, i);
         let mut script = gen_script(&mut r, false);
@@ -1193,12 +1276,57 @@ fn main() {
         let h = gen_handler(&mut r, 0);
         ctx.run(&Case::Acct { iuu: r.chance(1, 2), h, script });
     }
-    let nfb = args.cases(1_500, 40_000);
+    mark("acct", &mut lap);
+    // regression: sha256-crypt fields whose digest part is not a canonical 43-character encoding
+    if !args.extra.contains_key("fb-only-case") {
+        let good = hs.good.iter().find(|(h, c)| h.starts_with("$5$saltsalt") && *c == 1).map(|(h, _)| h.clone()).unwrap();
+        let mut last_changed = good.clone().into_bytes();
+        let n = last_changed.len();
+        last_changed[n - 1] = if last_changed[n - 1] == b'z' { b'y' } else { b'z' };
+        let g6 = hs.good.iter().find(|(h, c)| h.starts_with("$6$saltsalt") && *c == 1).map(|(h, _)| h.clone()).unwrap();
+        let gy = hs.good.iter().find(|(h, c)| h.starts_with("$y$j75$") && *c == 1).map(|(h, _)| h.clone()).unwrap();
+        let mut g6_last = g6.clone().into_bytes();
+        let n6 = g6_last.len();
+        g6_last[n6 - 1] = if g6_last[n6 - 1] == b'z' { b'y' } else { b'z' };
+        let witnesses = vec![
+            format!("{g6}a"),
+            format!("{g6}ab"),
+            String::from_utf8(g6_last).unwrap(),
+            format!("{gy}a"),
+            format!("{}", &gy[..gy.len() - 1]),
+            format!("{good}$"),
+            format!("{good}ab"),
+            "$5$saltsalt$short".to_string(),
+            format!("{}", &good[..good.len() - 1]),
+            format!("{good}a"),
+            String::from_utf8(last_changed).unwrap(),
+            "$5$saltsalt$!!!!!!!!!!!!!!!!!!!!!!!!!!!!!!!!!!!!!!!!!!!".to_string(),
+            "$6$saltsalt$short".to_string(),
+            "$y$j75$F5Jx5fExrKuPp53xLKQ..1$short".to_string(),
+        ];
+        for w in witnesses {
+            ctx.run(&Case::Fb {
+                ufp: false,
+                iuu: false,
+                h: HandlerScript { service_info: None, account: Ans::Val(1), authtok: Ans::Nothing, prompts: vec![Ans::Val(1)] },
+                now: 1_700_000_000,
+                users: vec![1],
+                shadow: vec![ShadowLine { name: 1, pw: w, expire_days: None }],
+            });
+        }
+    }
+    let nfb = args.cases(1_200, 25_000);
     for i in 0..nfb {
+        if let Some(only) = args.extra.get("fb-only-case") {
+            if only.parse::<u64>().ok() != Some(i) {
+                continue;
+            }
+        }
         let mut r = Rng::for_case(args.seed ^ 0xfb, i);
         let c = gen_fb(&mut r, &hs);
         ctx.run(&c);
     }
+    mark("fb", &mut lap);
     let netc = args.cases(40, 400);
     let nreal = ctx.etc_users.len();
     for i in 0..netc {
@@ -1206,11 +1334,14 @@ fn main() {
         let account = if nreal == 0 || r.chance(1, 4) { None } else { Some(r.below(nreal as u64) as usize) };
         ctx.run(&Case::Etc { acct_mgmt: r.chance(1, 2), ufp: r.chance(1, 2), iuu: r.chance(1, 2), account, prompt: r.range(1, 3) });
     }
+    mark("etc", &mut lap);
     let ncrypt = args.cases(2_000, 40_000);
     for i in 0..ncrypt {
         let mut r = Rng::for_case(args.seed ^ 0xc4, i);
         ctx.run(&Case::Crypt { pw: gen_pwfield(&mut r) });
     }
+    mark("crypt", &mut lap);
+    ctx.rep.note(format!("time per stream: {}", timing.join(", ")));
     ctx.rep.model_requests = ctx.drv.requests;
     ctx.rep.note(format!("{} good hashes from libcrypt (sha512, sha256, yescrypt), {} unsupported-scheme hashes; /etc/passwd has {} entries, /etc/shadow {}", hs.good.len(), hs.unsupported.len(), ctx.etc_users.len(), ctx.etc_shadow.len()));
     ctx.rep.write(&args.out);
